@@ -288,4 +288,16 @@ theorem count_and_hash_children (a b : GObj) (x y : List Str) (ha : a.strings = 
 example : (gobjs demo).map (fun a => (a.linenum, (networkCount a).toOption)) = [(2, some 3), (6, some 1), (8, some 1)] := by
   decide +kernel
 
+/-- **No history**: in a sequence of constructions carried out in one process, every answer is
+the answer of that construction alone, whatever was built before or after it (in particular the
+same `port_spec` under the other protocol: a service name is looked up in the table of the
+protocol at hand every time). -/
+theorem pseq_history_free (before after : List (Str × Str)) (proto spec : Str) :
+    pseq (before ++ (proto, spec) :: after) =
+      pseq before ++ l4 proto "asa".toList spec :: pseq after := by
+  simp [pseq]
+
+example : (pseq [("tcp".toList, "eq rtsp".toList), ("udp".toList, "eq rtsp".toList), ("udp".toList, "eq ssh".toList)]).map
+    (fun r => r.toOption) = [some [554], some [5004], none] := by decide +kernel
+
 end Ccp.C20
